@@ -107,7 +107,7 @@ class Adversary(InstructionGenerator):
 
             def plug_for(station):
                 cs = sorted(station.state) if station is not None else []
-                if hostile and rng.random() < 0.5:
+                if hostile and rng.random() < 0.5 and not p.get("valid_plugs_only"):
                     return rng.choice(chargers)  # maybe absent at the station / wrong energy type
                 if p.get("valid_plugs_only") or rng.random() < 0.8:
                     ok = [c for c in cs if mech is not None and mech.valid_charger(env.chargers[c])]
